@@ -38,7 +38,7 @@ def fn_by_suffix(P, suffix, crate=None):
         if b["path"].endswith(suffix) and (b["path"] == suffix or b["path"][-len(suffix) - 1] == ":" or True):
             # require segment boundary
             pre = b["path"][:-len(suffix)]
-            if pre == "" or pre.endswith("::") or suffix.startswith("::"):
+            if pre == "" or pre[-1] in ": <" or suffix.startswith("::"):
                 out.append(b)
     return out
 
@@ -220,3 +220,43 @@ def pipeline(t):
 
 def order_ok(chain):
     return all(a not in ORDER_BREAKING and (a in ORDER_PRESERVING) for a, _ in chain)
+
+
+# ------------------------------------------------------------ expectation helpers ----
+import re as _re
+
+ANY = "⟪*⟫"     # wildcard marker usable inside expected strings
+
+
+def term_matches(got, expected):
+    """exact comparison of a rendered term with an expected string; ⟪*⟫ in `expected` matches anything"""
+    if ANY not in expected:
+        return got == expected
+    rx = ".*".join(_re.escape(p) for p in expected.split(ANY))
+    return _re.fullmatch(rx, got, _re.S) is not None
+
+
+def expect_term(ctx, rule, key, node, got_term, expected, why=""):
+    """expected: string or list of accepted strings"""
+    got = show(got_term, 10 ** 6) if not isinstance(got_term, str) else got_term
+    exps = [expected] if isinstance(expected, str) else list(expected)
+    ok = any(term_matches(got, e) for e in exps)
+    detail = why
+    if not ok:
+        detail = (why + "\n" if why else "") + "expected: " + " | ".join(exps) + "\nfound:    " + got
+    return ctx.expect(ok, rule, key, site(node) if isinstance(node, dict) else node, why, detail)
+
+
+def param_index(fn, ty_pred):
+    """index of the unique parameter whose (peeled) type satisfies ty_pred, else None"""
+    hits = [i for i, t in enumerate(fn.get("inputs", [])) if ty_pred(t)]
+    return hits[0] if len(hits) == 1 else None
+
+
+def anchor_fn(ctx, rule, role, fns):
+    """fail closed when a role does not resolve to exactly one function"""
+    if len(fns) == 1:
+        return fns[0]
+    ctx.bad(rule, "missing-anchor/" + role, "", "role `%s` resolved to %d constructs (expected exactly 1): %s" % (
+        role, len(fns), [f["path"] if isinstance(f, dict) else f[0]["path"] for f in fns][:6]))
+    return None
